@@ -385,6 +385,7 @@ func (t *wal) runSync() {
 			// Wait for the first request
 			callbacks = append(callbacks, callback)
 		}
+		verifSyncGate(t)
 
 		// Clear all the other requests in the channel
 		callbacks = t.drainSyncRequestsChannel(callbacks)
